@@ -734,7 +734,7 @@ func (e *SpecEnv) indexExpr(v *ast.IndexExpr) Val {
 	case SliceV:
 		i := e.idxTerm(e.eval(v.Index))
 		el := b.Ty.Underlying().(*types.Slice).Elem()
-		p := e.c.elemAddr(e.s, b.Arr, e.c.idxAdd(b.Off, i), el)
+		p := e.c.elemAddr(e.s, b.Arr, e.c.elemIdx(b.Off, i), el)
 		if isAggregate(el) {
 			if structOf(el) != nil {
 				return p // reference to the element (typed pointer): fields selectable
@@ -832,6 +832,9 @@ func (e *SpecEnv) callExpr(v *ast.CallExpr) Val {
 			return e.c.iteVal(e.s, cnd, a, b)
 		case "forall", "exists":
 			return e.quant(id.Name, v.Args)
+		case "forall2":
+			// forall2(j, k, lo, hi, body): for all lo <= j < k < hi
+			return e.quant2(v.Args)
 		case "len":
 			return e.lenOf(e.eval(v.Args[0]))
 		case "cap":
@@ -974,12 +977,17 @@ func (e *SpecEnv) callExpr(v *ast.CallExpr) Val {
 			return Scalar{fmt.Sprintf("(to_real %s)", a.T), SReal, types.Typ[types.Float64]}
 		case "strlen":
 			a := e.eval(v.Args[0]).(Scalar)
-			return Scalar{fmt.Sprintf("(strlen %s)", a.T), SInt, types.Typ[types.Int]}
+			return Scalar{fmt.Sprintf("(strlen %s)", a.T), e.c.ar.idxSort(), types.Typ[types.Int]}
 		case "uf":
 			// uf("name", args...): uninterpreted Int function (for abstract predicates use ufb)
 			return e.uninterp(v.Args, SInt)
 		case "ufb":
 			return e.uninterp(v.Args, SBool)
+		case "ufi":
+			// uninterpreted function with result in the index sort (Go type int)
+			r := e.uninterp(v.Args, e.c.ar.idxSort()).(Scalar)
+			r.Ty = types.Typ[types.Int]
+			return r
 		case "called":
 			// called("name"): number of calls logged to callee name on this path
 			name, _ := strconv.Unquote(v.Args[0].(*ast.BasicLit).Value)
@@ -1043,6 +1051,11 @@ func (e *SpecEnv) uninterp(args []ast.Expr, res Sort) Val {
 	for _, a := range args[1:] {
 		switch x := e.eval(a).(type) {
 		case Scalar:
+			if e.c.ar.bv && x.S == SInt {
+				if n, ok := isNumeral(x.T); ok {
+					x = Scalar{e.c.ar.lit(n, intInfo{64, true}), e.c.ar.idxSort(), types.Typ[types.Int]}
+				}
+			}
 			ts = append(ts, x.T)
 			sorts = append(sorts, string(x.S))
 		case IfaceV:
@@ -1083,7 +1096,7 @@ func (e *SpecEnv) lenOf(a Val) Val {
 		return Scalar{e.c.ar.idx(x.Ty.Underlying().(*types.Array).Len()), e.c.ar.idxSort(), intT}
 	case Scalar:
 		if x.S == SStr {
-			return Scalar{e.c.intFromMath(fmt.Sprintf("(strlen %s)", x.T)), e.c.ar.idxSort(), intT}
+			return Scalar{e.c.strLen(x.T), e.c.ar.idxSort(), intT}
 		}
 		if mt, ok := x.Ty.Underlying().(*types.Map); ok {
 			return Scalar{e.c.mapCard(e.s, e.heap, x.T, mt), e.c.ar.idxSort(), intT}
@@ -1219,6 +1232,30 @@ func (e *SpecEnv) quant(kind string, args []ast.Expr) Val {
 		t = fmt.Sprintf("(exists ((%s %s)) %s)", qn, sort, inner)
 	}
 	return Scalar{t, SBool, boolT}
+}
+
+func (e *SpecEnv) quant2(args []ast.Expr) Val {
+	if len(args) != 5 {
+		specFail("forall2(j, k, lo, hi, body)")
+	}
+	j, ok1 := args[0].(*ast.Ident)
+	k, ok2 := args[1].(*ast.Ident)
+	if !ok1 || !ok2 {
+		specFail("forall2: first two arguments must be identifiers")
+	}
+	e.c.nfresh++
+	jn := fmt.Sprintf("%s!q%d", j.Name, e.c.nfresh)
+	e.c.nfresh++
+	kn := fmt.Sprintf("%s!q%d", k.Name, e.c.nfresh)
+	n := e.sub()
+	sort := e.c.ar.idxSort()
+	n.bound[j.Name] = Scalar{jn, sort, types.Typ[types.Int]}
+	n.bound[k.Name] = Scalar{kn, sort, types.Typ[types.Int]}
+	lo := n.idxTerm(n.eval(args[2]))
+	hi := n.idxTerm(n.eval(args[3]))
+	guard := fmt.Sprintf("(and %s %s %s)", e.c.idxCmp(token.LEQ, lo, jn), e.c.idxCmp(token.LSS, jn, kn), e.c.idxCmp(token.LSS, kn, hi))
+	body := n.evalBool(args[4])
+	return Scalar{fmt.Sprintf("(forall ((%s %s) (%s %s)) (=> %s %s))", jn, sort, kn, sort, guard, body), SBool, types.Typ[types.Bool]}
 }
 
 // ---------- types ----------
